@@ -29,11 +29,12 @@ CONSTANTS
 VIEW View
 INVARIANTS
   Inv_C07_DepositEscrow
-  Inv_C07_RequestEscrow_ModF4
   Inv_C07_OwnerTally
-  Inv_C13_QueueSound_ModF20
   Inv_C13_QueueComplete
 PROPERTIES
+  Act_C07_RequestEscrow_ModF4
+  Act_C13_QueueSound_ModF20
+  Act_C13_NoHalt
   Act_C07_Charge_ModF4
   Act_C07_Answer
   Act_C07_Expire
